@@ -1253,3 +1253,16 @@ package modfile
 //@   ensures [C16] line_wrapped: old(ISLINE(f.Syntax.Stmt[i])) ==> fresh(result) && len(result.Line) == 1 && result.Line[0] == old(ifaceptr(f.Syntax.Stmt[i])) && result.Line[0].InBlock && len(result.Line[0].Token) == old(len(ifaceptr(f.Syntax.Stmt[i], "*Line").Token)) - 1 && len(result.Token) == 1 && result.Token[0] == "require"
 //@   ensures [C16] others_kept: forall k int {f.Syntax.Stmt[k]} :: 0 <= k && k < len(f.Syntax.Stmt) && k != i ==> f.Syntax.Stmt[k] == old(f.Syntax.Stmt[k])
 //@   props C16
+//@ # moveReq(r, block): r's line becomes a fresh in-block line appended to block; an existing line hands over its
+//@ # comments and its tokens without the verb and is emptied (Cleanup deletes it); a requirement without a line gets
+//@ # path, version and, if indirect, the marker
+//@ func (*File).SetRequireSeparateIndirect$2
+//@   requires r != nil && block != nil
+//@   modifies Require.Syntax, Require.Indirect, LineBlock.Line, []*Line, Line.Token, Line.InBlock, Comments.Suffix, []Comment, Comment.Token
+//@   allocates
+//@   ensures [C16] moved_to_block: r.Syntax != nil && fresh(r.Syntax) && r.Syntax.InBlock && len(block.Line) == old(len(block.Line)) + 1 && block.Line[len(block.Line)-1] == r.Syntax
+//@   ensures [C16] block_lines_kept: forall k int {block.Line[k]} :: 0 <= k && k < old(len(block.Line)) ==> block.Line[k] == old(block.Line[k])
+//@   ensures [C16] old_line_emptied: old(r.Syntax) != nil ==> old(r.Syntax).Token == nil
+//@   ensures [C16] comments_move_with_the_line: old(r.Syntax) != nil ==> r.Syntax.Comments.Before == old(r.Syntax.Comments.Before) && r.Syntax.Comments.Suffix == old(r.Syntax.Comments.Suffix) && r.Syntax.Comments.After == old(r.Syntax.Comments.After)
+//@   ensures [C16] verb_dropped: old(r.Syntax) != nil ==> r.Syntax.Token == (if !old(r.Syntax.InBlock) && old(len(r.Syntax.Token)) > 0 && old(r.Syntax.Token[0]) == "require" then old(r.Syntax.Token)[1:] else old(r.Syntax.Token))
+//@   props C16
